@@ -62,6 +62,13 @@ let handle (toks : string list) : (string * string * string) option =
               | Ok ((Some es, _), t) -> let v = List.concat es in "V " ^ hex_of v ^ " where=app alias=no" ^ alloc v ^ tk t
               | Ok ((None, _), t) -> "NULLPTR" ^ tk t
               | Abort -> "ABORT" | Fault -> "FAULT" | Diverge -> "DIVERGE"))
+        | "ptrsw" ->
+          (* copy_and_verify on a pointer-to-struct cell; the schedule is indexed by interleave points AND read notifications
+             of the cell, in program order *)
+          let total = Z.pow (z_of_int 2) (z_of_int 32) in
+          let woff r = (let o = Z.sub r (Z.sub total (z_of_int w)) in
+                        if Z.leb Z0 o && Z.ltb o (z_of_int w) then Some (ni (int_of_z o)) else None) in
+          fin (fun _ -> "") (vrun sc (cv_struct_ptr_cell woff (ni 8) (ni off)) m0 O)
         | "uspc" ->
           let total = Z.pow (z_of_int 2) (z_of_int 32) in
           (match vrun sc (usp_cell total (z_of_int a) (ni off)) m0 O with
